@@ -96,6 +96,34 @@ theorem supported_transition_decodes (e : Entry) (he : e ∈ appTable) (hx : ¬ 
     simp only [hc, Bool.and_eq_true, Bool.not_eq_true'] at ha
     exact ⟨c, rfl, ha.1, agree_decodes e.app c ha.2 vs bs h⟩
 
+/-! ### roles: the n-th value means the same thing on both sides -/
+
+/-- entry `e`: the roles taken from the packed expressions describe its schema, and position by position they are the
+roles of the members the checker-side constructor of its kind stores the unpacked values in -/
+def rolesAgree (e : Entry) : Bool :=
+  match checkerSchema e.kind, checkerRoles e.kind with
+  | some c, some cr => rolesShape e.app e.roles && rolesShape c cr && rolesCompatible e.roles cr
+  | _, _ => false
+
+/-- finite table: `decide`.  For every (observer, kind) entry outside the message-queue observers, the expression the
+application packs at position n names the same thing (mutex, condvar, semaphore, barrier, comm, mailbox, owner, sender,
+receiver, target, child, capacity, granted, timeout, tag, bounds, call location) as the member the checker stores the
+n-th unpacked value in; for TESTANY / WAITANY, member kind by member kind.  Two fields of equal wire type that are
+packed in one order and unpacked in the other make `schemas_agree_partial` hold and this theorem fail. -/
+theorem roles_agree : ∀ e ∈ appTable, ¬ e.observer ∈ excluded → rolesAgree e = true := by decide
+
+/-- sanity of the definition on the witness shape of the class: CONDVAR_WAIT packed as (mutex, cond, granted, timeout)
+has the right types and the wrong roles -/
+theorem roles_swapped_rejected :
+    let e : Entry := { app_ConditionVariableObserver_CONDVAR_WAIT with
+                       roles := [.prim "mutex", .prim "cond", .prim "granted", .prim "timeout"] }
+    agrees e = true ∧ rolesAgree e = false := by decide
+
+-- non-vacuity: CONDVAR_WAIT has two fields of the same wire type with different roles; a constant is the only wildcard
+example : app_ConditionVariableObserver_CONDVAR_WAIT.roles = [.prim "cond", .prim "mutex", .prim "granted", .prim "timeout"] ∧
+    app_ConditionVariableObserver_CONDVAR_WAIT.app = [.prim .u32, .prim .u32, .prim .bool, .prim .bool] := by decide
+example : roleOk "_const" "granted" = true ∧ roleOk "granted" "_const" = false ∧ roleOk "mutex" "cond" = false := by decide
+
 -- non-vacuity: a MUTEX_WAIT message (mutex 7, owner 3) is an entry of the table, outside the exclusion, and encodes
 example : app_MutexAcquisitionObserver_MUTEX_WAIT ∈ appTable := by simp [appTable]
 example : ¬ app_MutexAcquisitionObserver_MUTEX_WAIT.observer ∈ excluded ∧
